@@ -509,7 +509,7 @@ def run(ctx: Ctx):
                     "Time(datetime)+TimeDelta(seconds) of midgard.data.time taken as given (C02/C03); dataset epoch compared to 1e-8 s",
                     "the driver's wire parser for abstract files (lean/Driver/C13.lean, namespace Wire); the Lean spec writer is compared byte for byte with the independent Python writer on every generated file"]
     ctx.assumptions += ["seconds fields carry at most 7 decimals (the 8th printed digit is 0), so '{:010.7f}' is exact",
-                        "no duplicate epochs, no empty lines (outside 'well-formed')"] + c13_adv.ASSUMPTIONS
+                        "no duplicate epochs (outside 'well-formed'); the abstract files of File.wf contain no empty lines, files with empty lines are the adversarial kinds blank-*"] + c13_adv.ASSUMPTIONS
     ctx.extra["adversarial_kinds"] = {**{k: {"real_parser": e, "property_defines_result": p} for k, (e, p) in c13_adv.EXPECT.items()},
                                       **{k: {"real_parser": v, "property_defines_result": True} for k, v in c13_adv.MODEL_KINDS.items()}}
     try:
@@ -530,7 +530,7 @@ def run(ctx: Ctx):
             for _ in range(1200):
                 one_file(ctx, impl, drv, gen_file(rng, True))
         # adversarial files for the line grouping (after the generated ones: their random stream stays what it was)
-        c13_adv.run_adv(ctx, sys.modules[__name__], impl, drv, ctx.budget(8, 250))
+        c13_adv.run_adv(ctx, sys.modules[__name__], impl, drv, ctx.budget(8, 80))
     finally:
         impl.cleanup()
     ctx.traces = ctx.evaluations
